@@ -78,7 +78,7 @@ import numpy as np
 
 from vf.hyp import st
 from vf.modelgen import F32, F64, I32, make_array
-from vf.rulehosts.plant import register
+from vf.rulehosts.plant import register, scenario
 
 U8 = np.dtype("uint8")
 I8 = np.dtype("int8")
@@ -631,11 +631,15 @@ def _wb(g, dtype, wshape, M, tag, strict):
     return ins
 
 
+_AFFINE_CONV_PADS = ["zeros", "absent", "absent_same", "autopad_notset", "nonzero", "absent_valid", "zeros", "autopad_same", "absent_same", "autopad_valid"]
+
+
 @register("affine_conv_fusion_rule")
 def host_affine_conv(g):
     tag = "affine_conv"
     g.features.add(f"planted:{tag}")
-    strict = g.chance(7)
+    pk_sc = scenario(g, _AFFINE_CONV_PADS)
+    strict = g.chance(7) if pk_sc is None else (pk_sc in ("zeros", "autopad_notset") and g.chance(5))
     if strict:
         g.features.add(f"planted:{tag}:strict")
     nd = _opt(g, strict, [2, 2, 2, 2, 2, 2], [1, 3])
@@ -650,8 +654,12 @@ def host_affine_conv(g):
         return None
     # autopad_valid / autopad_same = auto_pad together with an explicit (zero) pads attribute: accepted by onnx.checker and
     # onnx.reference, forbidden by the operator spec text and refused by onnxruntime -> rare, reference-only
-    pk = _opt(g, strict, ["zeros", "zeros", "zeros", "zeros", "zeros", "autopad_notset"], ["absent", "nonzero", "autopad_valid", "autopad_same"])
-    ap = {"autopad_valid": "VALID", "autopad_notset": "NOTSET", "autopad_same": g.pick(["SAME_UPPER", "SAME_LOWER"])}.get(pk)
+    # absent_same / absent_valid: no pads attribute at all and padding requested through auto_pad (what exporters emit for "same" convolutions)
+    pk = pk_sc
+    if pk is None:
+        pk = _opt(g, strict, ["zeros", "zeros", "zeros", "zeros", "zeros", "autopad_notset"], ["absent", "absent_same", "absent_valid", "nonzero", "autopad_valid", "autopad_same"])
+    ap = {"autopad_valid": "VALID", "absent_valid": "VALID", "autopad_notset": "NOTSET", "autopad_same": g.pick(["SAME_UPPER", "SAME_LOWER"]),
+          "absent_same": g.pick(["SAME_UPPER", "SAME_LOWER"])}.get(pk)
     pads = None
     if pk == "nonzero":
         pads = [g.pick([0, 1, 1]) for _ in range(2 * nd)]
@@ -672,7 +680,7 @@ def host_affine_conv(g):
         attrs["group"] = group
     if ap:
         attrs["auto_pad"] = ap
-    if pk != "absent":
+    if not pk.startswith("absent"):
         attrs["pads"] = pads if pads is not None else [0] * (2 * nd)
     g.features.add(f"planted:{tag}:pads_{pk}")
     g.features.add(f"planted:{tag}:nd{nd}")
@@ -682,6 +690,9 @@ def host_affine_conv(g):
     # the explicit zero pads are what the runtimes use only when auto_pad is NOTSET; _emit_conv's check follows auto_pad
     y = _emit_conv(g, "Conv", ins, attrs)
     return _finish(g, y, tag, inter=g.pick([mul, aff]), strict=strict)
+
+
+host_affine_conv.strata = len(_AFFINE_CONV_PADS)
 
 
 @register("conv_affine_fusion_rule")
